@@ -21,7 +21,7 @@ use std::{
 
 use rand::{rngs::StdRng, Rng};
 use vcommon::{json, rng_for, Args, Report};
-use zksync_concurrency::{ctx, limiter, net, scope, time};
+use zksync_concurrency::{ctx, limiter, scope, time};
 use zksync_consensus_engine::{testonly::TestEngine, BlockStoreState, Last};
 use zksync_consensus_network::{testonly, verif};
 use zksync_consensus_roles::validator;
@@ -178,11 +178,11 @@ fn run_case(rep: &mut Report, args: &Args, case: u64, rt: &tokio::runtime::Runti
     let mut items: Vec<Item> = vec![];
     let mut listeners = vec![];
     for _ in 0..nitems {
-        let l = net::tcp::testonly::reserve_listener();
+        let (laddr, l) = crate::transport::listen_localhost_std();
         // validator 0 is the node itself (its own entry comes from its config): announce the others
         let k = &members[rng.gen_range(1..members.len())];
         let msg = validator::NetAddress {
-            addr: *l,
+            addr: laddr,
             version: [0u64, 1, 2, 3, u64::MAX - 1, u64::MAX][rng.gen_range(0..6)],
             timestamp: time::UNIX_EPOCH + time::Duration::seconds([0i64, 1, 2, 1_000_000][rng.gen_range(0..4)]),
         };
@@ -195,7 +195,7 @@ fn run_case(rep: &mut Report, args: &Args, case: u64, rt: &tokio::runtime::Runti
             1 => {
                 // a genuine announcement of another address, redirected to this listener after signing
                 let mut s = k.sign_msg(validator::NetAddress { addr: "10.1.2.3:4567".parse().unwrap(), ..msg.clone() });
-                s.msg.addr = *l;
+                s.msg.addr = laddr;
                 Item { ann: Arc::new(s), class: "address-altered-after-signing", genuine: false, member: true }
             }
             2 => Item { ann: Arc::new(outsiders[1].sign_msg(msg)), class: "non-member", genuine: true, member: false },
@@ -230,7 +230,7 @@ fn run_case(rep: &mut Report, args: &Args, case: u64, rt: &tokio::runtime::Runti
             });
             // listeners behind the announced addresses: log the dial, then hang up
             for (i, l) in listeners.drain(..).enumerate() {
-                let Ok(mut listener) = l.bind(false) else { continue };
+                let Ok(mut listener) = tokio::net::TcpListener::from_std(l) else { continue };
                 s.spawn_bg(async move {
                     while let Ok(tcp) = verif::tcp_accept(ctx, &mut listener).await {
                         sh.ev(Ev::Dial { item: i });
